@@ -305,7 +305,11 @@ def corr_c18(ctx, chk, broken):
     lines = [l for l in ops.splitlines() if l.strip()]
     rc, _ = chk.sh(['lake', 'build', 'Z80.Gen.CPMGlue', 'Z80.Gen.TinyCPM'], cwd=chk.LEAN, timeout=1800)
     glue = {'sequences': n, 'operations': len(lines)}
-    if rc != 0:
+    try:
+        refused = '_refused' in open(os.path.join(chk.LEAN, 'Z80', 'Gen', 'CPMGlue.lean')).read() or '_refused' in open(os.path.join(chk.LEAN, 'Z80', 'Gen', 'TinyCPM.lean')).read()
+    except OSError:
+        refused = True
+    if rc != 0 or refused:
         glue['translated_methods_stream'] = 'NOT AVAILABLE: Z80.Gen.CPMGlue does not build (the translator refused internal/tinycpm)'
     else:
         from concurrent.futures import ThreadPoolExecutor
